@@ -69,6 +69,14 @@ def scenarios(tier, seed=0):
             if tier == "quick" and (i + j) % 2:
                 continue
             yield {"kind": "seq", "config": f"cat:{name}", "ops": seq}
+    # the same crops started BEFORE the planting date (pre-season days run on the fallow filler crop) on a wet, poorly drained soil,
+    # where aeration-stress and minimum-rooting-depth parameters matter; plus keyword overrides of those parameters
+    for i, name in enumerate(names):
+        if tier == "quick" and i % 2 and name not in ("Barley", "Quinoa", "Tef", "AlfalfaGDD", "PaddyRice"):
+            continue
+        yield {"kind": "seq", "config": f"catpre:{name}", "ops": ["rebuild", "rerun", "rebuild"] if i % 2 else ["rerun", "rebuild", "rerun"]}
+    for kw in ({"Zmin": 0.5}, {"Aer": 12}, {"Zmin": 0.2, "Aer": 2}):
+        yield {"kind": "seq", "config": "kwpre:" + __import__("json").dumps(kw, sort_keys=True), "ops": ["rebuild", "rerun", "rebuild"]}
     for z in (0.6, 1.0, 1.3, 1.5, 1.7, 1.8, 2.0, 2.3, 2.8, 3.0):
         for dz in (("d12", "d15") if tier != "quick" else ("d12",)):
             yield {"kind": "seq", "config": f"zmax:{z}:{dz}", "ops": ["rebuild", "rerun", "rebuild"]}
@@ -107,6 +115,10 @@ def run(scn):
     cname = scn["config"]
     if cname.startswith("cat:"):
         spec = A.catalogue_spec(cname[4:], word="hot", irr="smt")
+    elif cname.startswith("catpre:"):
+        spec = A.catalogue_spec(cname[7:], word="showers", soil="Clay", iwc="SAT", start="2001/04/21")
+    elif cname.startswith("kwpre:"):
+        spec = A.catalogue_spec("Maize", word="showers", soil="Clay", iwc="SAT", start="2001/04/21", cropkw=__import__("json").loads(cname[6:]))
     elif cname.startswith("zmax:"):
         _, z, dz = cname.split(":")
         spec = A.to_spec(A._b(crop="maize.2", win="w1s", word="mix", dz=dz))
